@@ -22,7 +22,7 @@ META = {
         "C06.loop (quick): realloc of the failure-report array returns NULL (-DVERIF_REALLOC_FAILS: a legal allocator behaviour; no "
         "report entries are then recorded).  The complete allocator model (realloc may succeed, growing in place inside a 512-byte pool) "
         "is C06.loop.report, thorough tier (every write through the loop-havocked `failures` pointer costs ~60 s of symbolic execution: "
-        "~6.5 min); measured PROVED.  The report array feeds only the JSON report, never the result",
+        "6.5-10 min wall); measured PROVED (613 s under load).  The report array feeds only the JSON report, never the result",
         "the ghost statements tie the specification to the ONE textual call eval_statement(item->as.shadow.body, env); a second "
         "evaluation of a shadow body elsewhere would not be seen",
     ],
